@@ -104,8 +104,10 @@ Proof.
       pose proof Hok as Hn. unfold num_text in Hn. apply andb_prop in Hn. destruct Hn as [Hn Hne].
       rewrite (escape_num t Hn). fold is_num.
       assert (Hb : forall r, (match r with c :: _ => is_num c = false | [] => True end) ->
-                   (match span_until (fun c => negb (is_num c)) (t ++ r) with ([], _) => [] | (_, r') => [r'] end) = [r]).
-      { intros r Hr. rewrite (span_num t r Hok Hr). destruct t; [discriminate|reflexivity]. }
+                   (if existsb (fun c => (c =? 46) || (c =? 101) || (c =? 69)) t
+                    then match span_until (fun c => negb (is_num c)) (t ++ r) with ([], _) => [] | (_, r') => [r'] end
+                    else take_pref t (t ++ r)) = [r]).
+      { intros r Hr. destruct (existsb _ t); [|apply take_pref_app]. rewrite (span_num t r Hok Hr). destruct t; [discriminate|reflexivity]. }
       unfold wrap. rewrite <- !app_assoc, take_pref_app. cbn [flat_map app]. rewrite app_nil_r.
       rewrite Hb by (unfold tag_close; reflexivity). cbn [flat_map app]. rewrite take_pref_app. left. reflexivity.
     + cbn [raw_ok] in Hok. rewrite E in Hok.
